@@ -155,7 +155,7 @@ inline void dumpTo(const Node& n, std::string& out) { out += '['; out += nodeLab
 inline std::string dump(const Node& n) { std::string s; dumpTo(n, s); return s; }
 
 // ---- rendering ------------------------------------------------------------------------------------------------
-enum class Paren { MIN, MAX, ONE };   // ONE: MIN plus the oneIndex-th optional pair
+enum class Paren { MIN, MAX, ONE, TWO };   // ONE: MIN plus the oneIndex-th optional pair; TWO: MIN plus TWO pairs around the oneIndex-th parenthesisable TERM (needed or not)
 struct RenderOpt {
   Syn syn{ Syn::MATH };
   Paren paren{ Paren::MIN };
@@ -169,6 +169,7 @@ struct Rendered {
   std::string text;
   std::vector<std::pair<int, int>> span;  // per node in PRE-ORDER: [start, finish) in position units of the syntax
   int optionalPairs{ 0 };                 // number of optional parenthesis sites seen (for Paren::ONE enumeration)
+  int termSites{ 0 };                     // number of parenthesisable term sites (for Paren::TWO enumeration)
 };
 
 class Renderer {
@@ -176,6 +177,7 @@ class Renderer {
   std::vector<Tok> toks;
   std::vector<std::pair<int, int>> tokSpan;  // per node (pre-order): [firstTok, lastTok]
   int optionalSeen{ 0 };
+  int termSiteSeen{ 0 };
 
   // precedence levels of binary term operators: {+,-}=1 < {*}=2 < {× ∪ ∩ \ ∆}=3, all left-associative
   static int termLevel(K k) { return (k == K::Plus || k == K::Minus) ? 1 : k == K::Mult ? 2 : 3; }
@@ -199,20 +201,25 @@ class Renderer {
     }
     emitMaybeParen(c, need, isSetBinary(c.k));
   }
-  void emitMaybeParen(const Node& c, bool need, bool admissible) {
+  void emitMaybeParen(const Node& c, bool need, bool admissible, bool termSite = true) {
     bool par = need;
     if (!need && admissible) par = optional();
-    if (par) {
+    bool twice = false;
+    if (admissible && termSite) { const int id = termSiteSeen++; twice = opt.paren == Paren::TWO && id == opt.oneIndex; }   // ((a∪b)) is a sentence, ((a=b)) is not
+    if (par || twice) {
       // the parenthesised node's span includes its parentheses
       const size_t at = tokSpan.size();
-      put("(", false); emit(c); put(")", false);
-      tokSpan[at].first -= 1; tokSpan[at].second += 1;
+      const int pairs = twice ? 2 : 1;
+      for (int i = 0; i < pairs; ++i) put("(", false);
+      emit(c);
+      for (int i = 0; i < pairs; ++i) put(")", false);
+      tokSpan[at].first -= pairs; tokSpan[at].second += pairs;
     } else emit(c);
   }
   // operand of a binary logic operator / NOT / quantifier body
   void logicChild(const Node& c, bool need) {
     const bool admissible = isLogicBinary(c.k) || (isPredicateOp(c.k) && c.k != K::Iterate && c.k != K::Assign);
-    emitMaybeParen(c, need, admissible);
+    emitMaybeParen(c, need, admissible, false);
   }
   void commaList(const Node& n, size_t from, size_t to) { for (size_t i = from; i < to; ++i) { if (i > from) put(",", false); emit(n.ch[i]); } }
 
@@ -293,7 +300,7 @@ class Renderer {
   void emitTop(const Node& c) { if (isSetBinary(c.k)) emitOperand(c); else emit(c); }
 
   Rendered finish() {
-    Rendered r; r.optionalPairs = optionalSeen;
+    Rendered r; r.optionalPairs = optionalSeen; r.termSites = termSiteSeen;
     std::vector<int> start(toks.size()), fin(toks.size());
     int pos = 0;  // position units: code points (MATH) == bytes (ASCII, pure ASCII text)
     auto cps = [](const std::string& s) { int n = 0; for (unsigned char ch : s) if ((ch & 0xC0) != 0x80) ++n; return n; };
